@@ -41,7 +41,7 @@ def uses_param(r):
 def params_phase(chk, th):
     """LwParams: exhaustive TLC over all interleavings of accepted / rejected updates + behaviours replayed into real objects"""
     from ..adapters import params as pa
-    consts = dict(NP=2, NKeys=2, Vals={-1, 0, 1, 2}, NN=pa.NN, NONE=pa.NONE)
+    consts = dict(NP=2, NKeys=2, Vals={-1, 0, 1, 2}, NN=pa.NN, NONE=pa.NONE, NAN=pa.NAN)
     wd = tlc.workdir("C10_params")
     tlc.copy_specs(wd, {"LwParams"})
     tlc.write_mc(wd, "MC", "LwParams", consts)
